@@ -124,7 +124,7 @@ Definition keeps (h : Z) (o : op) : Prop :=
   match o with ONewH h' _ => h' <> h | OMake h' _ _ _ _ _ => h' <> h | _ => True end.
 
 Lemma step_hframe w o w' outs h :
-  inv fts w -> op_ok fts o -> keeps h o -> step true fts w o = Ok (w', outs) -> hframe h w w'.
+  inv fts w -> op_ok o -> keeps h o -> step true fts w o = Ok (w', outs) -> hframe h w w'.
 Proof.
   intros Hi Hok Hk.
   destruct o as [c nc init|c|c items|copt|obj copt nc pa mode ids|h' ids|h' obj|h' K copt nc pa ids|h' obj ids|h' obj mode ids]; cbn [step].
@@ -182,7 +182,7 @@ Proof.
 Qed.
 
 Lemma run_hframe ops : forall w w' outs h,
-  inv fts w -> Forall (op_ok fts) ops -> Forall (keeps h) ops -> run_ops true fts w ops = Ok (w', outs) ->
+  inv fts w -> Forall (op_ok) ops -> Forall (keeps h) ops -> run_ops true fts w ops = Ok (w', outs) ->
   hframe h w w' /\ inv fts w'.
 Proof.
   induction ops as [|o ops IH]; intros w w' outs h Hi Hok Hk; cbn [run_ops].
@@ -200,7 +200,7 @@ Lemma make_handle w h K copt nc pa ids w' outs :
   inv fts w -> pa <> PSynced -> step true fts w (OMake h K copt nc pa ids) = Ok (w', outs) ->
   exists cp, zfind h (w_hcmds w') = Some cp /\ outs = [] /\
     (nc = true -> In (K, cp) (w_slots w')) /\
-    (nc = false -> pa = PNone -> p_colors (pal_of w' cp) = top_colors fts (conf_in_force w copt) K).
+    (nc = false -> pa = PNone -> p_colors (pal_of w' cp) = top_colors (conf_in_force w copt) K).
 Proof.
   intros Hi Hpa. cbn [step]. pose proof (inv_set_oracle fts w ids Hi) as H0.
   destruct (mk_palette true (set_oracle w ids) K pa copt nc) as [[w1 cp]|] eqn:E1; [|discriminate].
@@ -218,14 +218,14 @@ Qed.
 Lemma interleaved_no_color_l w h K copt pa ids w1 o1 ops w2 o2 obj ids' :
   inv fts w -> pa <> PSynced ->
   step true fts w (OMake h K copt true pa ids) = Ok (w1, o1) ->
-  Forall (op_ok fts) ops -> Forall (keeps h) ops -> run_ops true fts w1 ops = Ok (w2, o2) ->
+  Forall (op_ok) ops -> Forall (keeps h) ops -> run_ops true fts w1 ops = Ok (w2, o2) ->
   obj_ok obj ->
   (forall w3 outs, step true fts w2 (ONext h obj ids') = Ok (w3, outs) -> outs = [text_lines (plain_lines fts (o_lines obj))]) /\
   (forall mode w3 outs, step true fts w2 (OWholeH h obj mode ids') = Ok (w3, outs) -> outs = texts_of mode (plain_lines fts (o_lines obj))).
 Proof.
   intros Hi Hpa E1 Hok Hk E2 Hobj.
   destruct (make_handle _ _ _ _ _ _ _ _ _ Hi Hpa E1) as (cp & Eh & _ & Hs & _). specialize (Hs eq_refl).
-  assert (inv fts w1) as Hi1 by (eapply (inv_step fts); [exact Hi|exact Hpa|exact E1]).
+  assert (inv fts w1) as Hi1 by (exact (inv_step fts w (OMake h K copt true pa ids) w1 o1 Hi Hpa E1)).
   destruct (run_hframe ops _ _ _ h Hi1 Hok Hk E2) as [[Fh Fs] Hi2].
   rewrite <- Fh in Eh. apply Fs in Hs. split.
   - intros w3 outs E. exact (next_no_color _ _ _ _ _ _ _ _ Hi2 Eh Hs Hobj E).
